@@ -295,6 +295,25 @@ LenBound(d, s, out) ==
     [] d.name = "truncate" -> Len(out) <= Max2(Len(s), 0) /\ (Len(s) > TruncN(d) => Len(out) <= TruncN(d))
     [] OTHER -> TRUE
 
+\* How far the reference result is pinned (by the tests, the documentation or
+\* the property), i.e. how an observed result may be compared with it:
+\*   "exact"    byte for byte
+\*   "canon"    up to the spelling of character references (CanonRefs)
+\*   "contract" not at all: only the contract is demanded
+RECURSIVE NoSpecialFrom(_, _), ChainKind(_, _)
+NoSpecialFrom(s, i) == i > Len(s) \/ (Ch(s, i) \notin HtmlSpecials /\ NoSpecialFrom(s, i + 1))
+PinKind(d, v) ==
+  CASE d.name \in Transparent -> "exact"
+    [] d.name = "truncate" -> "exact"
+    [] d.name \in {"escapeHtml", "changeNewlineToBr"} -> "canon"
+    [] d.name = "insertWordBreaks" -> IF NoSpecialFrom(ToText(v), 1) THEN "canon" ELSE "contract"
+    [] OTHER -> "contract"
+ChainKind(chain, v) ==
+  IF Len(chain) = 0 THEN "exact"
+  ELSE IF Len(chain) = 1 THEN PinKind(chain[1], v)
+  ELSE IF PinKind(chain[1], v) = "exact" THEN ChainKind(Tail(chain), Apply(chain[1], v))
+  ELSE "contract"
+
 \* Soy source of a directive / chain
 RECURSIVE ArgsText(_, _)
 ArgsText(args, i) == IF i > Len(args) THEN ""
